@@ -28,7 +28,8 @@ EXPLANATION = (
     "PyNameFilter returns True only under same_pyname, and create_finder installs a PyNameFilter for the queried "
     "binding on every path.  R02.4 (=R01.1): the enclosing-scope lookup chain skips class scopes.  R02.5 (=R15.7): target-name "
     "collectors never bind the object name of an attribute/subscript target.  R02.6: in every filter list, rejecting-only "
-    "filters precede accepting ones (the first non-None verdict decides).  That each candidate evaluates to "
+    "filters precede accepting ones (the first non-None verdict decides).  R02.7 (=R01.7): merged name tables give the winner the language "
+    "prescribes.  R02.8 (=R01.8): absolute module names are searched on the path before the importer's own folder.  That each candidate evaluates to "
     "the right binding is otherwise not decided."
 )
 ASSUMPTIONS = ["re alternation is ordered (leftmost position, first alternative wins)",
@@ -73,6 +74,14 @@ class _Swap(ast.NodeTransformer):
 
 
 def check(ctx, res) -> None:
+    _check_main(ctx, res)
+    from .common import merge_precedence_rule, module_search_order_rule
+
+    merge_precedence_rule(ctx, res, "R02.7")
+    module_search_order_rule(ctx, res, "R02.8")
+
+
+def _check_main(ctx, res) -> None:
     idx = ctx.idx
     # ---- R02.1 symmetry
     sp = idx.need_func("rope.refactor.occurrences.same_pyname")
